@@ -31,7 +31,7 @@ PID = 'C03'
 def designs_for(ctx):
   quick = ctx.tier == 'quick'
   return (eng.directed_designs(ctx) + sv.stdlib_designs(ctx.tier) + sv.testcase_designs() +
-          eng.gen_designs(ctx, 90 if quick else 800))
+          eng.gen_designs(ctx, 78 if quick else 800))
 
 def summarize(ctx, results):
   feats = collections.Counter()
@@ -70,6 +70,12 @@ def run(ctx):
   results = eng.run_backend(ctx, PID, BACKEND, designs_for(ctx), ncyc, {})
   summarize(ctx, results)
   static_acceptors(ctx, results)
+  # model of the translator (SV/Translate.v) vs the emitted always blocks; see harness/c03_tr.py
+  try:
+    import c03_tr
+    c03_tr.run(ctx, results)
+  except Exception as e:
+    ctx.violation(f'{PID}:tr-harness-crash', f'translator-model tie could not run: {e!r}', {'traceback': traceback.format_exc()}, found_input=False)
   return results
 
 def replay(ctx, rec, pid=PID, backend=BACKEND):
